@@ -219,3 +219,70 @@ pub fn outcome_lone_king<S: Src, const SIDE: u8>(s: &mut S) {
     vcover!("lone king mated", !h && in_check_ref(&p));
     vcover!("lone king with a move", h);
 }
+
+/// diagnostic (not in any tier): the wiring assertions on a board with three symbolic cells only
+pub fn wiring_semi<S: Src, const SIDE: u8>(s: &mut S) {
+    use owlchess::{Board, Cell, RawBoard};
+    let mut r = RawBoard::empty();
+    r.cells[23] = Cell::from_index(2);
+    r.cells[27] = Cell::from_index(s.below(2) as usize);
+    r.cells[38] = Cell::from_index(s.below(2) as usize);
+    r.cells[51] = Cell::from_index(8);
+    r.cells[53] = Cell::from_index(10);
+    r.cells[49] = Cell::from_index(7 + s.below(6) as usize);
+    let b = match Board::try_from(r) {
+        Ok(b) => b,
+        Err(_) => return,
+    };
+    let p = pos_of(b.raw());
+    #[cfg(kani)]
+    {
+        let t = any_m(s);
+        let ans = s.bool();
+        crate::s6::reset(mv_of(t), ans);
+        let h = b.has_legal_moves();
+        let t_candidate = semilegal_ref(&p, t) && t.kind != K_OO && t.kind != K_OOO;
+        let (asked, last_true, first) = unsafe { (crate::s6::T_ASKED, crate::s6::LAST_TRUE, owlchess::verif::FIRST_LEGAL) };
+        vassert!("the filter is asked only about pseudo-legal non-castling moves", asked == 0 || t_candidate);
+        if !h {
+            vassert!("'no legal move' only if every candidate was offered and rejected", !(t_candidate && ans) && (!t_candidate || asked == 1));
+            vassert!("'no legal move' only if the filter accepted nothing", last_true.is_none());
+        } else {
+            vassert!("'has a legal move' exactly by stopping on a move the filter accepted", first.is_some() && first == last_true);
+        }
+        vcover!("no move", !h);
+        vcover!("stops on target", h && first == Some(mv_of(t)));
+    }
+    #[cfg(not(kani))]
+    {
+        let _ = (p, SIDE);
+    }
+}
+
+/// `has_legal_moves` with the REAL legality filter on GEN(KP, KN): false only if no move is legal by
+/// the rules (a symbolic target stands for all moves), true only by stopping on a move that is legal
+/// by the rules (witness hook).  No S6 here; the price is one real legality check per generated move.
+pub fn has_legal_moves_direct<S: Src, const SIDE: u8, const KP: u32, const KN: u32>(s: &mut S) {
+    crate::stubs::draw_hash_pool(s);
+    let b = match any_board(s, SIDE) {
+        Some(b) => b,
+        None => return,
+    };
+    vassume!(gen_bound2(&b, KP, KN));
+    let p = pos_of(b.raw());
+    let t = any_m(s);
+    unsafe { owlchess::verif::FIRST_LEGAL = None };
+    let h = b.has_legal_moves();
+    let first = unsafe { owlchess::verif::FIRST_LEGAL };
+    vnote!("fen={} has_legal_moves={} stopped on {:?}; probe move {:?} legal by rules={}", b.as_fen(), h, first, mv_of(t), legal_ref(&p, t));
+    if !h {
+        vassert!("'no legal move' only if no move is legal by the rules", !legal_ref(&p, t));
+    } else {
+        match first {
+            Some(w) => vassert!("'has a legal move' by stopping on a move that is legal by the rules", legal_ref(&p, m_of(w))),
+            None => vassert!("'has a legal move' only with a witness", false),
+        }
+    }
+    vcover!("no legal move", !h);
+    vcover!("the only legal move is an en passant capture", h && first.map(|w| w.kind() == owlchess::MoveKind::Enpassant).unwrap_or(false));
+}
